@@ -115,9 +115,12 @@ func cmdCheck(args []string) int {
 	if *only != "" {
 		*evidence = "" // a debugging run over a subset must not overwrite the property's evidence
 	}
+	onlyFilter = *only
 	Discharge(reps, opt)
 	return report(p, *prop, *tier, seed, reps, *evidence, *known, *replays, *repo, t0, loadSecs, genSecs, *verbose, *noReplay)
 }
+
+var onlyFilter string
 
 func hasProp(c *Contract, p string) bool {
 	for _, x := range c.Props {
@@ -298,6 +301,17 @@ func report(p *Program, prop, tier string, seed int, reps []*FuncReport, evidenc
 		if fn := p.FuncByKey[c.Key]; fn != nil && len(fn.Blocks) > 0 && p.InRepo(fn) {
 			path := filepath.Join(rdir, safeFile("untagged:"+c.ShortKey)+".json")
 			writeJSON(path, map[string]interface{}{"obligation": "contract-target:untagged " + c.ShortKey, "verifier_output": "the contract of " + c.Key + " is relied upon at a call site but carries no property tag, so it is never verified", "contract": c.Where})
+			fmt.Printf("VIOLATION property=%s replay=%s no-failing-input-found\n", prop, path)
+			violations++
+		}
+	}
+	// an inline function is verified only where it is inlined: one that carries this property but was inlined nowhere
+	// in this run has not been verified at all
+	for _, k := range p.Contracts.SortedKeys() {
+		c := p.Contracts.Funcs[k]
+		if c.Inline && hasProp(c, prop) && !c.Used && !c.Trusted && onlyFilter == "" {
+			path := filepath.Join(rdir, safeFile("inline-unused:"+c.ShortKey)+".json")
+			writeJSON(path, map[string]interface{}{"obligation": "contract-target:inline-unused " + c.ShortKey, "verifier_output": "the inline contract of " + c.Key + " carries this property but no verified function of the property inlines it, so it is never verified", "contract": c.Where})
 			fmt.Printf("VIOLATION property=%s replay=%s no-failing-input-found\n", prop, path)
 			violations++
 		}
